@@ -21,6 +21,43 @@ func (r *MacroRule) RunPass(ctx *Context, pass Pass) {
 		}
 	}
 	r.Expr.RunPass(ctx, pass)
+
+	if pass == Check {
+		// Detect cycles here, for every macro, so that a cycle among macros that
+		// no rule uses is reported too.
+		r.checkCycle(ctx)
+	}
+}
+
+func (r *MacroRule) checkCycle(ctx *Context) {
+	if r.cycleDetect {
+		ctx.Errs.Errorf(ctx.Position(r), "macro cycle detected")
+		return
+	}
+	r.cycleDetect = true
+	forEachMacroRef(r.Expr, func(ref *LexerTermRef) {
+		// The Check pass may not have reached the referenced macro yet: look it
+		// up by name.
+		if macro, ok := ctx.Lookup(ref.Ref).(*MacroRule); ok && !ctx.Errs.HasError() {
+			macro.checkCycle(ctx)
+		}
+	})
+	r.cycleDetect = false
+}
+
+// forEachMacroRef calls f for every macro reference in e, including those
+// nested in groups.
+func forEachMacroRef(e *LexerExpr, f func(ref *LexerTermRef)) {
+	for _, factor := range e.Factors {
+		for _, termCard := range factor.Terms {
+			switch term := termCard.Term.(type) {
+			case *LexerTermRef:
+				f(term)
+			case *LexerExpr:
+				forEachMacroRef(term, f)
+			}
+		}
+	}
 }
 
 func (r *MacroRule) NFACons(ctx *Context) *mode.NFAComposite {
